@@ -71,6 +71,25 @@ CHECKS = {
              "quick": B(10000, 10), "thorough": B(300000, 120, 500)},
         ],
     },
+    "C06": {
+        "level": "exploration",
+        "rule": "seeded histories: init / impedances / data / precisions / file type / format list, then cksave + save or fsave by file "
+                "name, restart (all objects freed, simulated disk survives), load or fload with random read fragmentation; every "
+                "successfully written file is parsed by an independent Touchstone/NPD reader and compared with the model; non-trivial "
+                "= at least one file passed the independent reader or a load was compared; distinct = plan fingerprint",
+        "assumptions": [
+            "independent readers written from the Touchstone 1.1/2.0 specification and the NPD header keywords; vnaconv_* trusted for the expected forms",
+            "tolerance per printed field 4*10^(1-p) relative (1e-12 at maximum precision in polar forms, bit-exact for rectangular "
+            "forms loaded back at maximum precision), angles compared absolutely to 0.6*10^(3-max(p,3)) degrees",
+            "a format list of scalar-only forms (IL, RL, VSWR) is not required to be loadable; sticky file type / format after a failed save are not asserted",
+        ],
+        "expected_probes": ["save_ok", "save_refused", "load_ok", "load_exact", "reader_ts1_ok", "reader_ts2_ok", "reader_npd_ok"],
+        "subchecks": [
+            {"check": "C06", "what": "clean configuration", "quick": B(40000, 40), "thorough": B(1200000, 500, 500)},
+            {"check": "C06.array.faulty", "what": "allocation / write / close / open / read faults inside save and load",
+             "quick": B(12000, 15), "thorough": B(400000, 150, 500)},
+        ],
+    },
     "C14": {
         "level": "exploration",
         "rule": "trees built by seeded edit histories over a hard key/value alphabet, exported to the simulated disk, everything "
@@ -101,7 +120,6 @@ NOT_APPLICABLE = {
 # properties the design claims but whose check is not built yet (listed as not claimed until then)
 PLANNED = {
     "C03": "check under construction (chaos engine, DESIGN.md section 5); not claimed until it exists",
-    "C06": "check under construction (array engine + independent readers); not claimed until it exists",
     "C07": "check under construction (store engine); not claimed until it exists",
     "C09": "check under construction (corrupt engine); not claimed until it exists",
     "C10": "check under construction (cal engine); not claimed until it exists",
@@ -137,6 +155,13 @@ MANIFEST_TEXT = {
         "design_ref": "DESIGN.md section 5 C05",
         "level_note": "trusts vnaconv_* (C04 not claimed) and ArrayModel's own type-pair table",
         "technique": "deterministic simulation: seeded histories vs. reference model with differential conversion oracle",
+    },
+    "C06": {
+        "level_text": "seeded exploration of save / restart / load histories on a simulated disk; what each written file denotes is "
+                      "decided by independent format readers, what a load returns by the array model; evidence, not proof",
+        "design_ref": "DESIGN.md section 5 C06",
+        "level_note": "trusts the independent readers (sim/readers.h), ArrayModel and vnaconv_* for the expected parameter forms",
+        "technique": "deterministic simulation: simulated disk + restart + stream faults, independent-reader and model oracles",
     },
     "C14": {
         "level_text": "seeded exploration of build/export/restart/import cycles over a hard key/value alphabet on a simulated disk with "
